@@ -70,3 +70,20 @@ Example c11_holds_after_fix :
   map (fun o => (ores o, otime o)) (sim_exec (c11_bench false) 300 [] c11_cmds)
   = [(ROk, 0); (RSched 0, 0); (RSched 0, 0); (RPanic [Some 0%nat] 9, 10); (RTerminated, 10); (RTerminated, 10)]%Z.
 Proof. vm_compute. reflexivity. Qed.
+
+(* ---- classification by the single-threaded executor's run (Model/StRun.v, program generated from the
+   source): a run whose task loop was cut short by a panic of model m returns Panic naming m (never
+   "unprocessed messages", whatever is in flight), and the model ID of an enclosing simulation's handler survives a
+   nested run (F7 is the refutation for the pinned tree, see C06.v) *)
+Require Import NX.Model.StRun NX.gen.StRunProg NX.Proofs.StRunGen.
+
+Theorem c11_strun_panic_is_reported_first :
+  forall c0 i0 own d m,
+    snd (sr_exec d (Some m) (sr_init c0 i0 own) strun_gen) = Some (SRPanic (Some m)) /\
+    tl_id (fst (sr_exec d (Some m) (sr_init c0 i0 own) strun_gen)) = i0.
+Proof.
+  intros c0 i0 own d m. pose proof (strun_gen_spec c0 i0 own d (Some m)) as H.
+  destruct (sr_exec d (Some m) (sr_init c0 i0 own) strun_gen) as [s r]. cbn [fst snd].
+  destruct H as (_ & A & B & _). split; auto.
+Qed.
+Print Assumptions c11_strun_panic_is_reported_first.
